@@ -1153,6 +1153,22 @@ def install(rt):
     N["hashlib"] = {"md5": Opaque("hashlib.md5"), "sha1": Opaque("hashlib.sha1")}
     N["hmac"] = {"new": Opaque("hmac.new")}
     N["time"] = {"time": Opaque("time.time")}
+    def _getrandbits(i, a, k):
+        n = a[0]
+        if not isinstance(n, int):
+            raise Undecided("getrandbits with a symbolic width")
+        v = i.ctx.fresh_int("random_bits")
+        i.ctx.assume(And(v >= 0, v < 2 ** n))
+        return v
+
+    def _randint(i, a, k):
+        v = i.ctx.fresh_int("random_int")
+        i.ctx.assume(And(v >= a[0], v <= a[1]))
+        return v
+    # the random module: any value of the documented range (nondeterministic)
+    N["random"] = {"getrandbits": Builtin("random.getrandbits", _getrandbits), "randint": Builtin("random.randint", _randint),
+                   "randrange": Opaque("random.randrange"), "random": Opaque("random.random"), "choice": Opaque("random.choice")}
+    N["secrets"] = {"randbits": Builtin("secrets.randbits", _getrandbits)}
     N["importlib"] = {"import_module": Opaque("import_module")}
     N["pkgutil"] = {"iter_modules": Opaque("iter_modules"), "ModuleInfo": Opaque("ModuleInfo")}
 
